@@ -219,3 +219,59 @@ void h_identifier(void)
             __CPROVER_assert(g_rep_calls == 0 && !(ex.symbol.resolved & RESOLVE_FAILED), "a parameterless function used by name is accepted");
     }
 }
+
+/* C04/C20 (type references): a reference to a type name that is not declared is rejected (UNDEFINED_TYPE, quoting the name, the
+ * reference replaced by the bad type and marked failed); a name that denotes something that is no type is rejected (NOT_A_TYPE);
+ * an entity name yields the entity's type */
+void h_type_ref(void)
+{
+    IN(int, in_kind);      /* 0: nothing of that name, 1: an entity, 2: a function (not a type) */
+    static struct Scope_ tref, scope, ent, t_bad, t_ent; static struct TypeHead_ th; static struct Entity_ ee; static char n_t[4] = "typ";
+    __CPROVER_assume(in_kind >= 0 && in_kind <= 2);
+    tref.u.type = &th; th.body = 0; th.head = 0; tref.superscope = &scope; tref.symbol.name = n_t; tref.symbol.resolved = 0;
+    ent.u.entity = &ee; ee.type = &t_ent; t_ent.symbol.resolved = RESOLVED;
+    Type_Bad = &t_bad;
+    static char objname[9] = "function"; OBJ[(int)OBJ_FUNCTION].type = objname;
+    g_sf_result = in_kind == 0 ? 0 : (void *)&ent; g_sf_kind = in_kind == 1 ? OBJ_ENTITY : OBJ_FUNCTION; g_sf_calls = 0;
+    g_rep_calls = g_rep_error_class = 0;
+    Type t = &tref;
+    TYPE_resolve(&t);
+    __CPROVER_assert(g_sf_calls == 1 && g_sf_name == n_t, "the type is looked up under the name written in the reference");
+    if (in_kind == 0) {
+        __CPROVER_assert(g_rep_error_class == 1 && g_rep_errnum == UNDEFINED_TYPE && (tref.symbol.resolved & RESOLVE_FAILED) && t == &t_bad, "C04 a reference to an undeclared type is rejected with UNDEFINED_TYPE, marked failed and replaced by the bad type");
+        __CPROVER_assert(g_rep_sym == &tref.symbol && g_rep_a1 == (const void *)n_t, "C20 the diagnostic is attributed to the reference and quotes the undeclared name");
+    } else if (in_kind == 1) {
+        __CPROVER_assert(g_rep_calls == 0 && t == &t_ent, "a reference to an entity name becomes the entity's type");
+    } else {
+        __CPROVER_assert(g_rep_error_class == 1 && g_rep_errnum == NOT_A_TYPE && (tref.symbol.resolved & RESOLVE_FAILED), "C04 a name that denotes something that is not a type is rejected with NOT_A_TYPE");
+        __CPROVER_assert(g_rep_sym == &tref.symbol && g_rep_a1 == (const void *)n_t, "C20 the diagnostic quotes the offending name");
+    }
+}
+
+/* C04/C20 (supertype references): SUBTYPE OF (x) where x is not a declared entity is rejected (UNKNOWN_SUPERTYPE quoting x and the
+ * entity, entity marked failed); a declared supertype is linked both ways (it gains the entity as a subtype unless it lists it already) */
+void h_supertype_ref(void)
+{
+    IN(int, in_found); IN(int, in_listed);
+    static struct Scope_ e1, sup, scope; static struct Entity_ ee1, esup; static struct Symbol_ sym;
+    static struct Linked_List_ syms, sublist; static struct Link_ ym, y1, bm, b1; static char n_e[2] = "e", n_s[2] = "s";
+    e1.u.entity = &ee1; e1.symbol.name = n_e; e1.symbol.resolved = 0; e1.superscope = &scope; ee1.supertypes = 0;
+    sym.name = n_s; syms.mark = &ym; ym.next = &y1; ym.prev = &y1; y1.next = &ym; y1.prev = &ym; y1.data = &sym; ee1.supertype_symbols = &syms;
+    sup.u.entity = &esup; sup.symbol.name = n_s; sup.symbol.resolved = RESOLVED;
+    sublist.mark = &bm;
+    if (in_listed) { bm.next = &b1; bm.prev = &b1; b1.next = &bm; b1.prev = &bm; b1.data = &e1; } else { bm.next = &bm; bm.prev = &bm; }
+    esup.subtypes = &sublist;
+    print_objects_while_running = 0;
+    g_sf_result = in_found ? &sup : 0; g_sf_kind = OBJ_ENTITY; g_sf_calls = 0; g_listadd_calls = 0;
+    g_rep_calls = g_rep_error_class = 0;
+    ENTITYresolve_supertypes(&e1);
+    __CPROVER_assert(g_sf_calls == 1 && g_sf_name == n_s, "the supertype is looked up under the name written after SUBTYPE OF");
+    if (!in_found) {
+        __CPROVER_assert(g_rep_error_class == 1 && g_rep_errnum == UNKNOWN_SUPERTYPE && (e1.symbol.resolved & RESOLVE_FAILED), "C04 a supertype that is not a declared entity is rejected with UNKNOWN_SUPERTYPE and the entity marked failed");
+        __CPROVER_assert(g_rep_sym == &sym && g_rep_a1 == (const void *)n_s, "C20 the diagnostic is attributed to the supertype reference and quotes its name");
+    } else {
+        __CPROVER_assert(g_rep_calls == 0 && !(e1.symbol.resolved & RESOLVE_FAILED), "a declared supertype is accepted");
+        /* first LISTadd_last: the entity's own supertype list; a second one only if the supertype did not list the entity */
+        __CPROVER_assert(g_listadd_calls == (in_listed ? 1 : 2), "the supertype gains the entity as a subtype exactly when it did not list it already");
+    }
+}
